@@ -357,9 +357,13 @@ impl EigenTrustEngine {
             }
         }
 
-        // Apply time decay
-        let last_update = self.last_update.read().await;
-        let elapsed = last_update.elapsed().as_secs() as f64 / 3600.0; // hours
+        // Apply time decay. The read guard must be released before the timestamp is
+        // rewritten below; holding it across that write blocked this function on
+        // itself until the caller's timeout fired and stale cached scores were returned.
+        let elapsed = {
+            let last_update = self.last_update.read().await;
+            last_update.elapsed().as_secs() as f64 / 3600.0 // hours
+        };
 
         for (_, trust) in trust_vector.iter_mut() {
             *trust *= self.decay_rate.powf(elapsed);
